@@ -50,10 +50,7 @@ type Case struct {
 	Frames []Frame      `json:"frames"`
 }
 
-type cursorWant struct {
-	visible       bool
-	col, row, shp int
-}
+type cursorWant = model.CursorWant
 
 // applyMirror applies one op to the harness mirror.
 func applyMirror(m *model.Mirror, cw *cursorWant, op Op, method widthtab.Method) {
@@ -74,9 +71,9 @@ func applyMirror(m *model.Mirror, cw *cursorWant, op Op, method widthtab.Method)
 			col += w
 		}
 	case "show":
-		*cw = cursorWant{true, op.Col, op.Row, op.Shape}
+		*cw = cursorWant{Visible: true, Col: op.Col, Row: op.Row, Shape: op.Shape}
 	case "hide":
-		cw.visible = false
+		cw.Visible = false
 	}
 }
 
@@ -106,46 +103,7 @@ func applyVaxis(vx *vaxis.Vaxis, op Op) {
 }
 
 func checkFrame(s *vxdrive.Session, tc model.TermConfig, m *model.Mirror, cw cursorWant, what string) string {
-	t := s.Term
-	t.Lock()
-	defer t.Unlock()
-	exp, overflow := tc.Expected(m)
-	if overflow > 0 {
-		return "" // outside the domain (generator avoids it; replay files may not)
-	}
-	if t.Cols != m.Cols || t.Rows != m.Rows {
-		return fmt.Sprintf("%s: harness error: terminal is %dx%d, mirror %dx%d", what, t.Cols, t.Rows, m.Cols, m.Rows)
-	}
-	if msg := model.CompareGrid(t, exp, 0, 0); msg != "" {
-		return what + ": " + msg
-	}
-	if !t.Alt {
-		return what + ": terminal is not on the alternate screen"
-	}
-	if cw.visible {
-		if !t.C.Visible {
-			return fmt.Sprintf("%s: cursor hidden, application asked for it at (%d,%d)", what, cw.col, cw.row)
-		}
-		if t.C.Col != cw.col || t.C.Row != cw.row {
-			return fmt.Sprintf("%s: cursor at col %d row %d, application asked for col %d row %d", what, t.C.Col, t.C.Row, cw.col, cw.row)
-		}
-		if t.C.Shape != cw.shp {
-			return fmt.Sprintf("%s: cursor shape %d, application asked for %d", what, t.C.Shape, cw.shp)
-		}
-	} else if t.C.Visible {
-		return what + ": cursor visible, application asked for it hidden"
-	}
-	pen := t.Pen
-	if pen.Link != "" {
-		return fmt.Sprintf("%s: hyperlink %q left open after the flush", what, pen.Link)
-	}
-	if (pen != refterm.Style{}) {
-		return fmt.Sprintf("%s: pen not reset after the flush: %v", what, pen)
-	}
-	if t.SyncDepth != 0 || t.SyncMin < 0 || t.SyncMax > 1 {
-		return fmt.Sprintf("%s: synchronized-update nesting unbalanced (depth %d, min %d, max %d)", what, t.SyncDepth, t.SyncMin, t.SyncMax)
-	}
-	return ""
+	return model.CheckDisplay(s.Term, tc, m, cw, what)
 }
 
 func run(c Case) string {
@@ -232,8 +190,8 @@ func run(c Case) string {
 				m = model.NewMirror(f.Cols, f.Rows)
 			}
 			// keep the cursor request inside the new screen
-			if cw.col >= f.Cols || cw.row >= f.Rows {
-				cw.visible = false
+			if cw.Col >= f.Cols || cw.Row >= f.Rows {
+				cw.Visible = false
 				s.Vx.HideCursor()
 			}
 			continue // nothing is drawn until the next frame
@@ -386,8 +344,8 @@ func genCase(rt *rapid.T) Case {
 			if f.Cols != m.Cols || f.Rows != m.Rows {
 				m = model.NewMirror(f.Cols, f.Rows)
 			}
-			if cw.col >= f.Cols || cw.row >= f.Rows {
-				cw.visible = false
+			if cw.Col >= f.Cols || cw.Row >= f.Rows {
+				cw.Visible = false
 			}
 		default:
 			f.End = "render"
